@@ -44,7 +44,7 @@ class Lin:
         return not self.t
 
     def __eq__(self, o):
-        return self.c == o.c and self.t == o.t
+        return isinstance(o, Lin) and self.c == o.c and self.t == o.t
 
     def __repr__(self):
         return 'Lin(%s%s)' % (hex(self.c)[:20], ''.join(' + %s*%s' % (hex(v)[:14], k) for k, v in list(self.t.items())[:3]))
